@@ -38,7 +38,7 @@ def _spec(draw, tier):
 
 
 def strategy(tier):
-    return _spec(tier)
+    return gens.with_pre(_spec(tier))
 
 
 def _depth(t):
@@ -61,6 +61,8 @@ def _build(spec):
 
 
 def check(spec, stats):
+    if sim.set_pre(spec):
+        stats.label("pre_elaborated")
     tree, acc = spec["tree"], spec["acc"]
     leaves = gens.tree_leaves(tree)
     stats.label("via:" + ("annot" if spec["via"] == "annot" and "d" in tree else "arg"))
